@@ -1,3 +1,4 @@
+import Rp2.Proofs.Schedule
 import Rp2.Proofs.Final
 import Rp2.Proofs.PipelineEngine
 import Rp2.Gen.Methods
@@ -62,4 +63,12 @@ theorem lots_sorted_by_instant_then_row (ins : List InTx) (h : SheetOrder ins) :
 /-- non-vacuity: a concrete history meets the hypotheses (two lots, an income event, two disposals at one instant) -/
 example : EvOK none [⟨10, 0, 2, true⟩, ⟨20, 0, 3, false⟩, ⟨20, 0, 1, false⟩] := by
   simp [EvOK]
+/-- year-over-year method changes: the method in force in a year is the one of the schedule entry with the greatest year not after it … -/
+theorem method_in_force_iff (sched : List (Int × Method)) (hnd : (sched.map (·.1)).Nodup) (year : Int) (m : Method) :
+    methodFor sched year = some m ↔ ∃ y, (y, m) ∈ sched ∧ y ≤ year ∧ ∀ p ∈ sched, p.1 ≤ year → p.1 ≤ y := methodFor_iff sched hnd year m
+/-- … whatever the order in which the `[accounting_methods]` section lists its entries (`methodFor` is what the pipeline's `engineEvents` /
+    `lotCtx` look up: slot of the event's local year, method of that slot) -/
+theorem method_in_force_independent_of_line_order (s1 s2 : List (Int × Method)) (hp : s1.Perm s2) (hnd : (s1.map (·.1)).Nodup) (year : Int) :
+    methodFor s1 year = methodFor s2 year := methodFor_perm s1 s2 hp hnd year
+example : methodFor [(2021, .fifo), (2024, .fifo), (2022, .hifo)] 2025 = some .fifo ∧ methodFor [(2021, .fifo), (2024, .fifo), (2022, .hifo)] 2023 = some .hifo := by decide
 end Rp2.C01
